@@ -34,6 +34,10 @@ pub enum POp {
     Len,
     /// `cancel_all_streams()`
     CancelAll,
+    /// `gracefully_end_all_streams(Duration::ZERO)`, driven to completion on this thread (a paused-clock runtime: its 1 ms retry sleeps are virtual)
+    EndAll,
+    /// `gracefully_end_stream(id of consumer #n's up-front stream, Duration::ZERO)`, driven to completion on this thread
+    EndStream(u8),
     /// n harness-level scheduling points
     Pause(u8),
 }
@@ -58,6 +62,10 @@ pub struct Consumer {
     /// the stream is dropped by its own thread as soon as it has answered end-of-stream (what an executor task does)
     #[serde(default)]
     pub drop_on_end:    bool,
+    /// after having dropped its ended stream the consumer subscribes again (a fresh stream, possibly re-using the id), polls it up to n times
+    /// (parking in between) and drops it
+    #[serde(default)]
+    pub resubscribe:    Option<u8>,
 }
 
 #[derive(Clone, Debug, Serialize, Deserialize)]
@@ -113,6 +121,8 @@ pub struct PollRec {
     pub res:    PollRes,
     /// true for the harness' final drain after quiescence
     pub drain:  bool,
+    /// the poll was made on the stream the consumer created after its first one had ended (Consumer::resubscribe)
+    pub resub:  bool,
 }
 
 #[derive(Clone, Debug)]
@@ -128,6 +138,9 @@ pub struct ConsumerEnd {
     /// was parked (unwoken) when the run reached quiescence
     pub parked_at_quiescence: bool,
     pub polls:     u32,
+    /// Consumer::resubscribe: call / return stamps of the creation of the second stream, and of its drop
+    pub resub_at:  Option<(u64, u64)>,
+    pub resub_dropped_at: Option<(u64, u64)>,
 }
 
 #[derive(Clone, Debug)]
@@ -136,8 +149,12 @@ pub struct LenRec { pub thread: u8, pub call: u64, pub ret: u64, pub len: u32 }
 #[derive(Clone, Debug)]
 pub struct CancelRec { pub thread: u8, pub call: u64, pub ret: u64 }
 
+#[derive(Clone, Debug)]
+pub struct EndRec { pub thread: u8, pub call: u64, pub ret: u64, /** consumer whose stream was told to end (None: all streams) */ pub target: Option<u8>, /** streams left running (end all) / 1 = true, 0 = false (end one) */ pub answer: u32 }
+
 pub struct ChanRun {
     pub end:       EndState,
+    pub ends:      Vec<EndRec>,
     pub trace:     Vec<(u32, u8)>,
     pub inside:    u32,
     pub sends:     Vec<SendRec>,
@@ -186,10 +203,11 @@ impl ChanRun {
         }
         for p in &self.polls {
             let r = match p.res { PollRes::Item { val, .. } => payload::show(val), PollRes::Pending => "PENDING".into(), PollRes::End => "END".into() };
-            evs.push(Ev { at: p.call, text: format!("{}{}[{}..{}]poll(s{})={}", if p.drain { "drain" } else { "C" }, p.consumer, p.call, p.ret, p.stream, r) });
+            evs.push(Ev { at: p.call, text: format!("{}{}{}[{}..{}]poll(s{})={}", if p.drain { "drain" } else { "C" }, p.consumer, if p.resub { "'" } else { "" }, p.call, p.ret, p.stream, r) });
         }
         for l in &self.lens { evs.push(Ev { at: l.call, text: format!("T{}[{}..{}]len={}", l.thread, l.call, l.ret, l.len) }); }
         for c in &self.cancels { evs.push(Ev { at: c.call, text: format!("T{}[{}..{}]cancel_all", c.thread, c.call, c.ret) }); }
+        for e in &self.ends { evs.push(Ev { at: e.call, text: match e.target { None => format!("T{}[{}..{}]gracefully_end_all_streams={}", e.thread, e.call, e.ret, e.answer), Some(c) => format!("T{}[{}..{}]gracefully_end_stream(C{c})={}", e.thread, e.call, e.ret, e.answer == 1) } }); }
         for (ci, w) in self.wakes.iter().enumerate() { for (t, by) in w { evs.push(Ev { at: *t, text: format!("wake(C{ci} by T{by})@{t}") }); } }
         for (ci, c) in self.consumers.iter().enumerate() {
             if let Some((a, b)) = c.created_at { evs.push(Ev { at: a, text: format!("C{ci}[{a}..{b}]create(s{})", c.stream_id.unwrap_or(99)) }); }
@@ -223,6 +241,7 @@ struct Log {
     releases: Vec<RelRec>,
     lens:     Vec<LenRec>,
     cancels:  Vec<CancelRec>,
+    ends:     Vec<EndRec>,
     consumers: Vec<ConsumerEnd>,
     cur_ops:  Vec<String>,
 }
@@ -272,7 +291,7 @@ pub fn execute(case: &ChanCase, epi: Epilogue) -> ChanRun {
         Err(end) => {
             payload::set_current_ledger(None);
             return ChanRun { end: match end { EndState::Stall { .. } => EndState::Stall { stuck: vec![(n_prod + n_cons, 0)], parked: vec![] }, other => other }, trace: vec![], inside: 0,
-                sends: vec![], polls: vec![], releases: vec![], lens: vec![], cancels: vec![], consumers: vec![ConsumerEnd::default(); n_cons], wakes: vec![vec![]; n_cons], dead_waker_uses: 0, dead_waker_uses_superseded: 0,
+                ends: vec![], sends: vec![], polls: vec![], releases: vec![], lens: vec![], cancels: vec![], consumers: vec![ConsumerEnd::default(); n_cons], wakes: vec![vec![]; n_cons], dead_waker_uses: 0, dead_waker_uses_superseded: 0,
                 prefill: vec![], pending_at_quiescence: 0, running_at_quiescence: 0, quiescence_tick: 0, capacity_probe: None, ledger: vec![], ledger_corrupt: 0, n_producers: n_prod, open_after: None,
                 prefill_rejected: false, cur_ops: { let mut v = vec![String::new(); n_prod + n_cons]; v.push("set-up (create channel / streams / prefill)".into()); v }, running_after_drop: None, recreate: None };
         },
@@ -315,7 +334,7 @@ pub fn execute(case: &ChanCase, epi: Epilogue) -> ChanRun {
 
     let mut run = ChanRun {
         end: outcome.end.clone(), trace: outcome.trace, inside: outcome.switches_inside_ops,
-        sends: vec![], polls: vec![], releases: vec![], lens: vec![], cancels: vec![], consumers: vec![],
+        ends: vec![], sends: vec![], polls: vec![], releases: vec![], lens: vec![], cancels: vec![], consumers: vec![],
         wakes: outcome.wakes[n_prod..].to_vec(), dead_waker_uses: outcome.dead_waker_uses, dead_waker_uses_superseded: outcome.dead_waker_uses_superseded, prefill,
         pending_at_quiescence: 0, running_at_quiescence: 0, quiescence_tick, capacity_probe: None,
         ledger: vec![], ledger_corrupt: 0, n_producers: n_prod, open_after: None, prefill_rejected, cur_ops: vec![], running_after_drop: None, recreate: None,
@@ -323,9 +342,15 @@ pub fn execute(case: &ChanCase, epi: Epilogue) -> ChanRun {
     if outcome.end != EndState::Completed {
         // the channel may be in a state its destructors cannot cope with (and threads were unwound mid-operation): leak everything
         let l = std::mem::take(&mut *log.lock().unwrap());
-        run.sends = l.sends; run.polls = l.polls; run.releases = l.releases; run.lens = l.lens; run.cancels = l.cancels; run.consumers = l.consumers; run.cur_ops = l.cur_ops;
-        std::mem::forget(streams.lock().unwrap().drain(..).collect::<Vec<_>>());
-        std::mem::forget(chan);
+        run.sends = l.sends; run.polls = l.polls; run.releases = l.releases; run.lens = l.lens; run.cancels = l.cancels; run.ends = l.ends; run.consumers = l.consumers; run.cur_ops = l.cur_ops;
+        let leftover_streams = streams.lock().unwrap().drain(..).collect::<Vec<_>>();
+        if case.kind.is_mmap() {
+            // (each log channel maps terabytes of address space: leaking many of them exhausts it; its teardown takes no spin lock a dead thread could hold)
+            let _ = crate::sched::guarded(5_000, move || { let s = LeakOnUnwind::new(leftover_streams); let c = LeakOnUnwind::new(chan); drop(s.take()); drop(c.take()); });
+        } else {
+            std::mem::forget(leftover_streams);
+            std::mem::forget(chan);
+        }
         payload::set_current_ledger(None);
         return run;
     }
@@ -365,7 +390,7 @@ pub fn execute(case: &ChanCase, epi: Epilogue) -> ChanRun {
                         Poll::Ready(None) => (PollRes::End, None),
                         Poll::Pending => (PollRes::Pending, None),
                     };
-                    log2.lock().unwrap().polls.push(PollRec { thread: 250, consumer: *ci as u8, stream: s.id(), call, ret, res, drain: true });
+                    log2.lock().unwrap().polls.push(PollRec { thread: 250, consumer: *ci as u8, stream: s.id(), call, ret, res, drain: true, resub: false });
                     match item {
                         Some(it) => {
                             let intact_before = it.intact();
@@ -391,7 +416,7 @@ pub fn execute(case: &ChanCase, epi: Epilogue) -> ChanRun {
                 // the drain could not finish: report it as the end state of the run and leak everything
                 run.end = match dout.end { EndState::Stall { .. } => EndState::Stall { stuck: vec![(n_prod + n_cons, 0)], parked: vec![] }, other => other };
                 let l = std::mem::take(&mut *log.lock().unwrap());
-                run.sends = l.sends; run.polls = l.polls; run.releases = l.releases; run.lens = l.lens; run.cancels = l.cancels; run.consumers = l.consumers; run.cur_ops = l.cur_ops;
+                run.sends = l.sends; run.polls = l.polls; run.releases = l.releases; run.lens = l.lens; run.cancels = l.cancels; run.ends = l.ends; run.consumers = l.consumers; run.cur_ops = l.cur_ops;
                 run.cur_ops.push("poll".into());
                 std::mem::forget(chan);
                 payload::set_current_ledger(None);
@@ -408,7 +433,7 @@ pub fn execute(case: &ChanCase, epi: Epilogue) -> ChanRun {
             Err(end) => {
                 run.end = match end { EndState::Stall { .. } => EndState::Stall { stuck: vec![(n_prod + n_cons, 0)], parked: vec![] }, other => other };
                 let l = std::mem::take(&mut *log.lock().unwrap());
-                run.sends = l.sends; run.polls = l.polls; run.releases = l.releases; run.lens = l.lens; run.cancels = l.cancels; run.consumers = l.consumers; run.cur_ops = l.cur_ops;
+                run.sends = l.sends; run.polls = l.polls; run.releases = l.releases; run.lens = l.lens; run.cancels = l.cancels; run.ends = l.ends; run.consumers = l.consumers; run.cur_ops = l.cur_ops;
                 run.cur_ops.push("send (capacity probe after the run)".into());
                 std::mem::forget(live);
                 std::mem::forget(chan);
@@ -421,7 +446,7 @@ pub fn execute(case: &ChanCase, epi: Epilogue) -> ChanRun {
     if suspended_for_ever {
         // a send that stays suspended may hold ring state (a lock, a reservation) for ever: the destructors could spin on it
         let l = std::mem::take(&mut *log.lock().unwrap());
-        run.sends = l.sends; run.polls = l.polls; run.releases = l.releases; run.lens = l.lens; run.cancels = l.cancels; run.consumers = l.consumers; run.cur_ops = l.cur_ops;
+        run.sends = l.sends; run.polls = l.polls; run.releases = l.releases; run.lens = l.lens; run.cancels = l.cancels; run.ends = l.ends; run.consumers = l.consumers; run.cur_ops = l.cur_ops;
         std::mem::forget(live);
         std::mem::forget(chan);
         payload::set_current_ledger(None);
@@ -432,7 +457,7 @@ pub fn execute(case: &ChanCase, epi: Epilogue) -> ChanRun {
         if let Err(end) = crate::sched::guarded(20_000, move || { let l = LeakOnUnwind::new(live2); drop(l.take()); }) {
             run.end = match end { EndState::Stall { .. } => EndState::Stall { stuck: vec![(n_prod + n_cons, 0)], parked: vec![] }, other => other };
             let l = std::mem::take(&mut *log.lock().unwrap());
-            run.sends = l.sends; run.polls = l.polls; run.releases = l.releases; run.lens = l.lens; run.cancels = l.cancels; run.consumers = l.consumers; run.cur_ops = l.cur_ops;
+            run.sends = l.sends; run.polls = l.polls; run.releases = l.releases; run.lens = l.lens; run.cancels = l.cancels; run.ends = l.ends; run.consumers = l.consumers; run.cur_ops = l.cur_ops;
             run.cur_ops.push("drop of the streams (teardown)".into());
             std::mem::forget(chan);
             payload::set_current_ledger(None);
@@ -451,7 +476,7 @@ pub fn execute(case: &ChanCase, epi: Epilogue) -> ChanRun {
     }
     drop(streams);
     let l = std::mem::take(&mut *log.lock().unwrap());
-    run.sends = l.sends; run.polls = l.polls; run.releases = l.releases; run.lens = l.lens; run.cancels = l.cancels; run.consumers = l.consumers; run.cur_ops = l.cur_ops;
+    run.sends = l.sends; run.polls = l.polls; run.releases = l.releases; run.lens = l.lens; run.cancels = l.cancels; run.ends = l.ends; run.consumers = l.consumers; run.cur_ops = l.cur_ops;
     if let Err(end) = crate::sched::guarded(20_000, move || { let c = LeakOnUnwind::new(chan); drop(c.take()); }) {
         run.end = match end { EndState::Stall { .. } => EndState::Stall { stuck: vec![(n_prod + n_cons, 0)], parked: vec![] }, other => other };
         run.cur_ops.push("drop of the channel (teardown)".into());
@@ -460,6 +485,13 @@ pub fn execute(case: &ChanCase, epi: Epilogue) -> ChanRun {
     run.ledger = ledger.all();
     run.ledger_corrupt = ledger.corrupt();
     run
+}
+
+/// Drives a future of the library to completion on the calling (logical) thread: a current-thread tokio runtime with the clock paused,
+/// so the library's `sleep(1 ms)` retry loops cost no time -- every atomic operation inside stays a scheduling point of this thread
+fn block_on_paused<T>(fut: impl Future<Output = T>) -> T {
+    let rt = tokio::runtime::Builder::new_current_thread().enable_time().start_paused(true).build().expect("tokio runtime");
+    rt.block_on(fut)
 }
 
 fn one_send(ctx: &ThreadCtx, chan: &dyn Chan, entry: Entry, v: u64) -> SendRes {
@@ -527,6 +559,7 @@ fn producer_body(ctx: &ThreadCtx, pi: usize, script: &[POp], chan: &dyn Chan, lo
             POp::Reserve => "reserve_slot".into(), POp::SendOldestReserved => "send_reserved".into(), POp::CancelNewestReserved => "cancel_reserved".into(),
             POp::AsyncBegin(_) => "send_with_async".into(), POp::AsyncPoll => "send_with_async".into(), POp::Len => "pending_items_count".into(),
             POp::CancelAll => "cancel_all_streams".into(), POp::Pause(_) => "pause".into(),
+            POp::EndAll => "gracefully_end_all_streams".into(), POp::EndStream(_) => "gracefully_end_stream".into(),
         };
         match *op {
             POp::Send(entry) | POp::SendRetry(entry) => {
@@ -605,6 +638,23 @@ fn producer_body(ctx: &ThreadCtx, pi: usize, script: &[POp], chan: &dyn Chan, lo
                 log.lock().unwrap().cancels.push(CancelRec { thread: t, call, ret });
             },
             POp::Pause(n) => { for _ in 0..n { ctx.point("pause"); } },
+            POp::EndAll => {
+                ctx.point("end_all.call");
+                let call = ctx.tick();
+                let left = ctx.op(|| block_on_paused(chan.end_all(std::time::Duration::ZERO)));
+                let ret = ctx.tick();
+                log.lock().unwrap().ends.push(EndRec { thread: t, call, ret, target: None, answer: left });
+            },
+            POp::EndStream(ci) => {
+                let id = log.lock().unwrap().consumers.get(ci as usize).and_then(|c| c.stream_id);
+                if let Some(id) = id {
+                    ctx.point("end_stream.call");
+                    let call = ctx.tick();
+                    let ok = ctx.op(|| block_on_paused(chan.end_stream(id, std::time::Duration::ZERO)));
+                    let ret = ctx.tick();
+                    log.lock().unwrap().ends.push(EndRec { thread: t, call, ret, target: Some(ci), answer: ok as u32 });
+                }
+            },
         }
     }
     log.lock().unwrap().cur_ops[pi] = if reservations.is_empty() { "send_with_async".into() } else { "send_reserved".into() };
@@ -680,7 +730,7 @@ fn consumer_body(ctx: &ThreadCtx, ci: usize, tid: usize, cons: &Consumer, chan: 
         match r {
             Poll::Ready(Some(item)) => {
                 let (val, intact, addr) = (item.val(), item.intact(), item.addr());
-                log.lock().unwrap().polls.push(PollRec { thread: tid as u8, consumer: ci as u8, stream: stream.id(), call, ret, res: PollRes::Item { val, intact, addr }, drain: false });
+                log.lock().unwrap().polls.push(PollRec { thread: tid as u8, consumer: ci as u8, stream: stream.id(), call, ret, res: PollRes::Item { val, intact, addr }, drain: false, resub: false });
                 log.lock().unwrap().cur_ops[tid] = "holding-item".into();
                 yielded += 1;
                 let mut item = item;
@@ -714,7 +764,7 @@ fn consumer_body(ctx: &ThreadCtx, ci: usize, tid: usize, cons: &Consumer, chan: 
             },
             Poll::Ready(None) => {
                 let mut g = log.lock().unwrap();
-                g.polls.push(PollRec { thread: tid as u8, consumer: ci as u8, stream: stream.id(), call, ret, res: PollRes::End, drain: false });
+                g.polls.push(PollRec { thread: tid as u8, consumer: ci as u8, stream: stream.id(), call, ret, res: PollRes::End, drain: false, resub: false });
                 g.consumers[ci].ended = true;
                 if cons.drop_on_end {
                     g.consumers[ci].polls = polls;
@@ -724,12 +774,42 @@ fn consumer_body(ctx: &ThreadCtx, ci: usize, tid: usize, cons: &Consumer, chan: 
                     ctx.op(|| drop(stream));
                     let ret = ctx.tick();
                     log.lock().unwrap().consumers[ci].dropped_at = Some((call, ret));
+                    if let Some(n) = cons.resubscribe {
+                        ctx.point("resubscribe.call");
+                        let c0 = ctx.tick();
+                        let mut again: LeakOnUnwind<Box<dyn StreamH>> = LeakOnUnwind::new(ctx.op(|| chan.create_stream()));
+                        log.lock().unwrap().consumers[ci].resub_at = Some((c0, ctx.tick()));
+                        let waker = ctx.new_waker();
+                        for _ in 0..n {
+                            ctx.point("poll.call");
+                            log.lock().unwrap().cur_ops[tid] = "poll".into();
+                            let call = ctx.tick();
+                            let r = ctx.op(|| again.poll(&waker));
+                            let ret = ctx.tick();
+                            let (res, item) = match r {
+                                Poll::Ready(Some(item)) => (PollRes::Item { val: item.val(), intact: item.intact(), addr: item.addr() }, Some(item)),
+                                Poll::Ready(None) => (PollRes::End, None),
+                                Poll::Pending => (PollRes::Pending, None),
+                            };
+                            log.lock().unwrap().polls.push(PollRec { thread: tid as u8, consumer: ci as u8, stream: again.id(), call, ret, res, drain: false, resub: true });
+                            if let Some(item) = item { let item = LeakOnUnwind::new(item); ctx.op(|| drop(item)); }
+                            match res {
+                                PollRes::End => break,
+                                PollRes::Pending => if ctx.park() == ParkResult::Quiescent { break },
+                                _ => {},
+                            }
+                        }
+                        ctx.point("drop_stream.call");
+                        let d0 = ctx.tick();
+                        ctx.op(|| drop(again));
+                        log.lock().unwrap().consumers[ci].resub_dropped_at = Some((d0, ctx.tick()));
+                    }
                     return;
                 }
                 break;
             },
             Poll::Pending => {
-                log.lock().unwrap().polls.push(PollRec { thread: tid as u8, consumer: ci as u8, stream: stream.id(), call, ret, res: PollRes::Pending, drain: false });
+                log.lock().unwrap().polls.push(PollRec { thread: tid as u8, consumer: ci as u8, stream: stream.id(), call, ret, res: PollRes::Pending, drain: false, resub: false });
                 match ctx.park() {
                     ParkResult::Woken => {},
                     ParkResult::Quiescent => { log.lock().unwrap().consumers[ci].parked_at_quiescence = true; break; },
